@@ -32,6 +32,7 @@ def check(ctx: Ctx):
     )
     tracking.check_overlap_matcher(ctx, rules=("PATHCOUNT", "TIME", "CONT"))
     tracking.check_distance_matcher(ctx, rules=("PATHCOUNT", "TIME", "INDEX", "GREEDY"))
+    tracking.check_no_early_exit(ctx)
     tracking.check_main_loop(ctx)
     tracking.check_track_append(ctx)
     tracking.check_input_untouched(ctx)
